@@ -16,8 +16,8 @@
    - and for programs with Register, Publish at QoS 0-2 on registered names, Unsubscribe
      (C26_programs_with_register_qos2_unsubscribe);
    - NOT proved (checked on the real client + real gateway by the monitor clauses (26,1)-(26,4) of
-     Checkers/ChkE2E.v on generated programs): wildcard subscriptions and the REGISTER step of broker
-     messages, predefined topics, QoS 2 broker messages, sleep cycles, time passing between calls;
+     Checkers/ChkE2E.v on generated programs): programs with wildcard subscriptions (one broker message on
+     a new name is proved: C26_message_on_a_new_topic_is_registered_and_delivered), predefined topics, QoS 2 broker messages, sleep cycles, time passing between calls;
    - REFUTED: "every broker message matching a subscription, including bursts on not-yet-registered
      topics under a wildcard, reaches the handler": of two messages in flight on one unregistered
      topic only the first is delivered (the gateway allocates a second topic ID for the same name,
@@ -27,8 +27,8 @@ From Verif.Base Require Import Bytes.
 From Verif.Codec Require Import Packets Decode Encode.
 From Verif.Gateway Require Import GwTypes GwStep GwWf.
 From Verif.Client Require Import ClTypes ClStep.
-From Verif.System Require Import Compose ComposeProofs ComposeProofs2_aux ComposeProofs2 ComposeProofs3_aux ComposeProofs3.
-From Verif.Checkers Require Import ChkE2E.
+From Verif.System Require Import Compose ComposeProofs ComposeProofs2_aux ComposeProofs2 ComposeProofs3_aux ComposeProofs3 ComposeLoss ComposeLoss2.
+From Verif.Checkers Require Import ChkCodec ChkE2E.
 Open Scope N_scope.
 
 Theorem C26_connect_then_simple_calls :
@@ -88,6 +88,32 @@ Theorem C26_programs_with_register_qos2_unsubscribe :
       QuietP cfg y' (subs_final3 [] evs) (regs_final3 [] evs).
 Proof. exact C26_partial_programs3. Qed.
 Print Assumptions C26_programs_with_register_qos2_unsubscribe.
+
+(* A broker message (QoS 1) on a name that has NO topic ID yet - the "new topic under a wildcard" case - from
+   any connected quiescent state in which the allocator can hand out the next ID (RegReady), the four
+   datagrams of the exchange being delivered: the gateway registers the name (REGISTER i, REGACK), sends the
+   PUBLISH under the new ID, the client acknowledges, the first matching handler of the client runs once
+   (scb_at: exactly [SoCb ...] when a handler matches, ComposeLoss2.scb_at_hd), the broker gets its PUBACK,
+   and client and gateway end with the same new registration (RegDone).  ONE message at a time: two in flight
+   on one new name is the refuted clause below. *)
+Theorem C26_message_on_a_new_topic_is_registered_and_delivered :
+  forall cfg y dup retain topic mid payload,
+    Quiet cfg y -> RegReady cfg y topic -> 1 <= mid < 65536 -> okb payload = true ->
+    nth_fault (e_g2c cfg) (y_g2c_k y) = FDeliver -> nth_fault (e_c2g cfg) (y_c2g_k y) = FDeliver ->
+    nth_fault (e_g2c cfg) (S (y_g2c_k y)) = FDeliver -> nth_fault (e_c2g cfg) (S (y_c2g_k y)) = FDeliver ->
+    let t := gw_now (y_gw y) in
+    let i := gw_seq_next (y_gw y) in
+    exists y',
+      sys_step cfg y (SBpub (MqPublish dup 1 retain topic mid payload)) =
+        (y', [SoBS t (MqPublish dup 1 retain topic mid payload);
+              SoG2C t FDeliver (pack (Register i mid topic)); SoC2G t FDeliver (pack (Regack i mid RC_ACCEPTED));
+              SoG2C t FDeliver (pack (Publish dup 1 retain TIT_REGISTERED i mid payload));
+              SoC2G t FDeliver (pack (Puback i mid RC_ACCEPTED))] ++
+             scb_at y t topic payload 1 retain dup mid ++ [SoBR t (MqPuback mid)]) /\
+      Quiet cfg y' /\ gw_now (y_gw y') = t /\ RegDone y y' topic i /\
+      y_c2g_k y' = S (S (y_c2g_k y)) /\ y_g2c_k y' = S (S (y_g2c_k y)).
+Proof. exact e2e_bpub_reg_q1_deliver. Qed.
+Print Assumptions C26_message_on_a_new_topic_is_registered_and_delivered.
 
 (* the refutation, as a history of the end-to-end monitor: lossless link, the subscription in place,
    two broker messages back to back on one new topic -> clause (26,4); one after the other -> none *)
